@@ -1,5 +1,787 @@
-//! C18 harness (stub: not implemented yet).
+//! C18 — canonical JSON. Runs the real `CanonicalFormatter` (through `cob::store::encoding::encode`) on JSON
+//! values and compares the exact bytes with the Lean model.
+//!
+//! Case input: `<nfc table> <tree>` (the same tokens the Lean driver reads).
+//! * tree: wire syntax of `lean/HeartwoodModel/Model/JsonWire.lean`; object members are handed to the
+//!   serialiser in the given order, duplicates included (a `Serialize` impl of the harness), and also
+//!   through the `serde_json::Value` that the JSON text of the tree parses to.
+//! * nfc table `hex>hex,…|-`: NFC of every string fragment of the tree that is not already normalised,
+//!   re-computed here with the `unicode-normalization` crate and compared (`bad-case` if it differs).
+//!
+//! Output: `direct=<hex|err> value=<hex|err>`.
+//! Oracle (the property statement on the real output): floats rejected and nothing else; output parses
+//! as JSON and re-encodes to the same bytes; no byte below 0x20; no whitespace outside strings; key
+//! tokens of every object strictly increasing bytewise; every string NFC; member order irrelevant when
+//! no two keys collide; the hypotheses about NFC used by the theorems hold on the fragments of the case.
+
+use std::collections::BTreeMap;
+
+use radicle::cob::store::encoding;
+use serde::ser::{Serialize, SerializeMap, SerializeSeq, Serializer};
+use unicode_normalization::{is_nfc, UnicodeNormalization};
+use verif_common::*;
+
+#[derive(Clone, Debug, PartialEq)]
+enum J {
+    Null,
+    Bool(bool),
+    Int(i128),
+    Float(u32),
+    Str(String),
+    Arr(Vec<J>),
+    Obj(Vec<(String, J)>),
+}
+
+const FLOATS: &[&str] = &["1.5", "-0.25", "1e2", "2.5E-3", "1.0", "18446744073709551616", "-9223372036854775809", "0.0", "-0.0", "-0"];
+
+impl Serialize for J {
+    fn serialize<S: Serializer>(&self, s: S) -> Result<S::Ok, S::Error> {
+        match self {
+            J::Null => s.serialize_unit(),
+            J::Bool(b) => s.serialize_bool(*b),
+            J::Int(i) if *i < 0 => s.serialize_i64(*i as i64),
+            J::Int(i) => s.serialize_u64(*i as u64),
+            J::Float(k) => s.serialize_f64(FLOATS[*k as usize % FLOATS.len()].parse::<f64>().unwrap()),
+            J::Str(x) => s.serialize_str(x),
+            J::Arr(xs) => {
+                let mut q = s.serialize_seq(Some(xs.len()))?;
+                for x in xs {
+                    q.serialize_element(x)?;
+                }
+                q.end()
+            }
+            J::Obj(kvs) => {
+                let mut m = s.serialize_map(Some(kvs.len()))?;
+                for (k, v) in kvs {
+                    m.serialize_entry(k, v)?;
+                }
+                m.end()
+            }
+        }
+    }
+}
+
+struct P<'a> {
+    s: &'a [u8],
+    i: usize,
+}
+
+impl<'a> P<'a> {
+    fn peek(&self) -> Option<u8> {
+        self.s.get(self.i).copied()
+    }
+    fn eat(&mut self, c: u8) -> bool {
+        if self.peek() == Some(c) {
+            self.i += 1;
+            true
+        } else {
+            false
+        }
+    }
+    fn nat(&mut self) -> Option<u128> {
+        let st = self.i;
+        let mut n: u128 = 0;
+        while let Some(c) = self.peek() {
+            if c.is_ascii_digit() {
+                n = n.checked_mul(10)?.checked_add((c - b'0') as u128)?;
+                self.i += 1;
+            } else {
+                break;
+            }
+        }
+        if self.i == st {
+            None
+        } else {
+            Some(n)
+        }
+    }
+    fn hex(&mut self) -> Option<String> {
+        let mut out = vec![];
+        let hv = |c: u8| match c {
+            b'0'..=b'9' => Some(c - b'0'),
+            b'a'..=b'f' => Some(c - b'a' + 10),
+            _ => None,
+        };
+        while self.i + 1 < self.s.len() {
+            match (hv(self.s[self.i]), hv(self.s[self.i + 1])) {
+                (Some(a), Some(b)) => {
+                    out.push(a * 16 + b);
+                    self.i += 2;
+                }
+                _ => break,
+            }
+        }
+        String::from_utf8(out).ok()
+    }
+    fn value(&mut self, depth: usize) -> Option<J> {
+        if depth > 64 {
+            return None;
+        }
+        let c = self.peek()?;
+        self.i += 1;
+        match c {
+            b'N' => Some(J::Null),
+            b'T' => Some(J::Bool(true)),
+            b'F' => Some(J::Bool(false)),
+            b'D' => Some(J::Float(self.nat().unwrap_or(0) as u32)),
+            b'I' => {
+                let neg = self.eat(b'-');
+                let n = self.nat()? as i128;
+                let v = if neg { -n } else { n };
+                if v < i64::MIN as i128 || v > u64::MAX as i128 {
+                    return None;
+                }
+                Some(J::Int(v))
+            }
+            b'S' => Some(J::Str(self.hex()?)),
+            b'A' => {
+                if !self.eat(b'[') {
+                    return None;
+                }
+                let mut xs = vec![];
+                if self.eat(b']') {
+                    return Some(J::Arr(xs));
+                }
+                loop {
+                    xs.push(self.value(depth + 1)?);
+                    if self.eat(b',') {
+                        continue;
+                    }
+                    if self.eat(b']') {
+                        return Some(J::Arr(xs));
+                    }
+                    return None;
+                }
+            }
+            b'O' => {
+                if !self.eat(b'{') {
+                    return None;
+                }
+                let mut kvs = vec![];
+                if self.eat(b'}') {
+                    return Some(J::Obj(kvs));
+                }
+                loop {
+                    let k = self.hex()?;
+                    if !self.eat(b':') {
+                        return None;
+                    }
+                    kvs.push((k, self.value(depth + 1)?));
+                    if self.eat(b',') {
+                        continue;
+                    }
+                    if self.eat(b'}') {
+                        return Some(J::Obj(kvs));
+                    }
+                    return None;
+                }
+            }
+            _ => None,
+        }
+    }
+}
+
+fn parse_tree(s: &str) -> Option<J> {
+    let mut p = P { s: s.as_bytes(), i: 0 };
+    let v = p.value(0)?;
+    if p.i == s.len() {
+        Some(v)
+    } else {
+        None
+    }
+}
+
+fn hexs(s: &str) -> String {
+    let mut o = String::new();
+    for b in s.as_bytes() {
+        o.push_str(&format!("{:02x}", b));
+    }
+    o
+}
+
+fn wire(j: &J, out: &mut String) {
+    match j {
+        J::Null => out.push('N'),
+        J::Bool(true) => out.push('T'),
+        J::Bool(false) => out.push('F'),
+        J::Int(i) => out.push_str(&format!("I{i}")),
+        J::Float(k) => out.push_str(&format!("D{k}")),
+        J::Str(s) => {
+            out.push('S');
+            out.push_str(&hexs(s));
+        }
+        J::Arr(xs) => {
+            out.push_str("A[");
+            for (i, x) in xs.iter().enumerate() {
+                if i > 0 {
+                    out.push(',');
+                }
+                wire(x, out);
+            }
+            out.push(']');
+        }
+        J::Obj(kvs) => {
+            out.push_str("O{");
+            for (i, (k, v)) in kvs.iter().enumerate() {
+                if i > 0 {
+                    out.push(',');
+                }
+                out.push_str(&hexs(k));
+                out.push(':');
+                wire(v, out);
+            }
+            out.push('}');
+        }
+    }
+}
+
+fn json_str(s: &str, out: &mut String) {
+    out.push('"');
+    for c in s.chars() {
+        match c {
+            '"' => out.push_str("\\\""),
+            '\\' => out.push_str("\\\\"),
+            c if (c as u32) < 0x20 => out.push_str(&format!("\\u{:04x}", c as u32)),
+            c => out.push(c),
+        }
+    }
+    out.push('"');
+}
+
+fn json_text(j: &J, out: &mut String) {
+    match j {
+        J::Null => out.push_str("null"),
+        J::Bool(b) => out.push_str(if *b { "true" } else { "false" }),
+        J::Int(i) => out.push_str(&i.to_string()),
+        J::Float(k) => out.push_str(FLOATS[*k as usize % FLOATS.len()]),
+        J::Str(s) => json_str(s, out),
+        J::Arr(xs) => {
+            out.push('[');
+            for (i, x) in xs.iter().enumerate() {
+                if i > 0 {
+                    out.push_str(" ,\n");
+                }
+                json_text(x, out);
+            }
+            out.push(']');
+        }
+        J::Obj(kvs) => {
+            out.push('{');
+            for (i, (k, v)) in kvs.iter().enumerate() {
+                if i > 0 {
+                    out.push_str(", ");
+                }
+                json_str(k, out);
+                out.push_str(" :\t");
+                json_text(v, out);
+            }
+            out.push('}');
+        }
+    }
+}
+
+fn strings_of<'a>(j: &'a J, out: &mut Vec<&'a str>) {
+    match j {
+        J::Str(s) => out.push(s),
+        J::Arr(xs) => xs.iter().for_each(|x| strings_of(x, out)),
+        J::Obj(kvs) => kvs.iter().for_each(|(k, v)| {
+            out.push(k);
+            strings_of(v, out)
+        }),
+        _ => {}
+    }
+}
+
+fn has_float(j: &J) -> bool {
+    match j {
+        J::Float(_) => true,
+        J::Arr(xs) => xs.iter().any(has_float),
+        J::Obj(kvs) => kvs.iter().any(|(_, v)| has_float(v)),
+        _ => false,
+    }
+}
+
+fn needs_esc(b: u8) -> bool {
+    b < 0x20 || b == b'"' || b == b'\\'
+}
+
+fn fragments(s: &str) -> Vec<&str> {
+    let mut out = vec![];
+    let mut start = 0;
+    for (i, b) in s.bytes().enumerate() {
+        if needs_esc(b) {
+            if start < i {
+                out.push(&s[start..i]);
+            }
+            start = i + 1;
+        }
+    }
+    if start < s.len() {
+        out.push(&s[start..]);
+    }
+    out
+}
+
+fn nfc_table(j: &J) -> BTreeMap<String, String> {
+    let mut ss = vec![];
+    strings_of(j, &mut ss);
+    let mut t = BTreeMap::new();
+    for s in ss {
+        for f in fragments(s) {
+            let n: String = f.nfc().collect();
+            if n != f {
+                t.insert(f.to_string(), n);
+            }
+        }
+    }
+    t
+}
+
+fn norm_key(s: &str) -> Vec<u8> {
+    // the key token the formatter sorts by: per-fragment NFC, escapes, quotes
+    let mut out = vec![];
+    let mut start = 0;
+    let b = s.as_bytes();
+    for (i, c) in b.iter().enumerate() {
+        if needs_esc(*c) {
+            out.extend(s[start..i].nfc().collect::<String>().bytes());
+            out.push(*c);
+            start = i + 1;
+        }
+    }
+    out.extend(s[start..].nfc().collect::<String>().bytes());
+    out
+}
+
+/// No two members of any object have the same normalised key.
+fn collision_free(j: &J) -> bool {
+    match j {
+        J::Arr(xs) => xs.iter().all(collision_free),
+        J::Obj(kvs) => {
+            let mut ks: Vec<Vec<u8>> = kvs.iter().map(|(k, _)| norm_key(k)).collect();
+            ks.sort();
+            ks.windows(2).all(|w| w[0] != w[1]) && kvs.iter().all(|(_, v)| collision_free(v))
+        }
+        _ => true,
+    }
+}
+
+fn reversed(j: &J) -> J {
+    match j {
+        J::Arr(xs) => J::Arr(xs.iter().map(reversed).collect()),
+        J::Obj(kvs) => J::Obj(kvs.iter().rev().map(|(k, v)| (k.clone(), reversed(v))).collect()),
+        x => x.clone(),
+    }
+}
+
+/// `radicle::cob::store::encoding::encode`: the public entry point to the (private) `CanonicalFormatter`,
+/// `serde_json::Serializer::with_formatter(&mut buf, CanonicalFormatter::new())` on any `Serialize`.
+fn encode<T: Serialize>(v: &T) -> Option<Vec<u8>> {
+    encoding::encode(v).ok()
+}
+
+/// Scan canonical output: key tokens of every object in emitted order; whitespace outside strings.
+struct Scan<'a> {
+    b: &'a [u8],
+    i: usize,
+    ws_outside: bool,
+    unsorted: bool,
+    bad: bool,
+}
+
+impl<'a> Scan<'a> {
+    fn string(&mut self) -> &'a [u8] {
+        let st = self.i;
+        if self.b.get(self.i) != Some(&b'"') {
+            self.bad = true;
+            return &[];
+        }
+        self.i += 1;
+        while self.i < self.b.len() {
+            match self.b[self.i] {
+                b'\\' => self.i += 2,
+                b'"' => {
+                    self.i += 1;
+                    return &self.b[st..self.i];
+                }
+                _ => self.i += 1,
+            }
+        }
+        self.bad = true;
+        &[]
+    }
+    fn ws(&mut self) {
+        while let Some(c) = self.b.get(self.i) {
+            if matches!(c, b' ' | b'\t' | b'\n' | b'\r') {
+                self.ws_outside = true;
+                self.i += 1;
+            } else {
+                break;
+            }
+        }
+    }
+    fn value(&mut self) {
+        self.ws();
+        match self.b.get(self.i) {
+            Some(b'"') => {
+                self.string();
+            }
+            Some(b'{') => {
+                self.i += 1;
+                self.ws();
+                let mut prev: Option<&[u8]> = None;
+                if self.b.get(self.i) == Some(&b'}') {
+                    self.i += 1;
+                    return;
+                }
+                loop {
+                    self.ws();
+                    let k = self.string();
+                    if let Some(p) = prev {
+                        if p >= k {
+                            self.unsorted = true;
+                        }
+                    }
+                    prev = Some(k);
+                    self.ws();
+                    if self.b.get(self.i) != Some(&b':') {
+                        self.bad = true;
+                        return;
+                    }
+                    self.i += 1;
+                    self.value();
+                    self.ws();
+                    match self.b.get(self.i) {
+                        Some(b',') => self.i += 1,
+                        Some(b'}') => {
+                            self.i += 1;
+                            return;
+                        }
+                        _ => {
+                            self.bad = true;
+                            return;
+                        }
+                    }
+                    if self.bad {
+                        return;
+                    }
+                }
+            }
+            Some(b'[') => {
+                self.i += 1;
+                self.ws();
+                if self.b.get(self.i) == Some(&b']') {
+                    self.i += 1;
+                    return;
+                }
+                loop {
+                    self.value();
+                    self.ws();
+                    match self.b.get(self.i) {
+                        Some(b',') => self.i += 1,
+                        Some(b']') => {
+                            self.i += 1;
+                            return;
+                        }
+                        _ => {
+                            self.bad = true;
+                            return;
+                        }
+                    }
+                    if self.bad {
+                        return;
+                    }
+                }
+            }
+            Some(_) => {
+                while let Some(c) = self.b.get(self.i) {
+                    if matches!(c, b',' | b']' | b'}' | b' ' | b'\t' | b'\n' | b'\r') {
+                        break;
+                    }
+                    self.i += 1;
+                }
+            }
+            None => self.bad = true,
+        }
+    }
+}
+
+fn all_strings_nfc(v: &serde_json::Value) -> bool {
+    match v {
+        serde_json::Value::String(s) => is_nfc(s),
+        serde_json::Value::Array(xs) => xs.iter().all(all_strings_nfc),
+        serde_json::Value::Object(m) => m.iter().all(|(k, v)| is_nfc(k) && all_strings_nfc(v)),
+        _ => true,
+    }
+}
+
+fn check_output(what: &str, out: &[u8], viol: &mut Vec<(String, String)>) {
+    if let Some(b) = out.iter().find(|b| **b < 0x20) {
+        viol.push(("raw-control-byte".into(), format!("{what}: byte 0x{b:02x} in the output")));
+    }
+    let mut sc = Scan { b: out, i: 0, ws_outside: false, unsorted: false, bad: false };
+    sc.value();
+    if sc.bad || sc.i != out.len() {
+        viol.push(("output-not-json".into(), format!("{what}: the output does not scan as one JSON value")));
+    }
+    if sc.ws_outside {
+        viol.push(("insignificant-whitespace".into(), format!("{what}: whitespace between tokens")));
+    }
+    if sc.unsorted {
+        viol.push(("keys-not-sorted".into(), format!("{what}: key tokens of an object are not strictly increasing bytewise")));
+    }
+    match serde_json::from_slice::<serde_json::Value>(out) {
+        Err(e) => viol.push(("output-not-json".into(), format!("{what}: serde_json does not parse the output: {e}"))),
+        Ok(v) => {
+            if !all_strings_nfc(&v) {
+                viol.push(("string-not-nfc".into(), format!("{what}: a string of the output is not NFC-normalised")));
+            }
+            match encode(&v) {
+                Some(again) if again == out => {}
+                _ => viol.push(("reencode-differs".into(), format!("{what}: decoding the output and encoding it again does not reproduce it"))),
+            }
+        }
+    }
+}
+
+fn run_case(input: &str) -> Outcome {
+    match catch(|| run_case_inner(input)) {
+        Ok(Some(o)) => o,
+        Ok(None) => Outcome::new("bad-case").trivial().tag("bad-case"),
+        Err(msg) => Outcome::new("panic").violation("panic", format!("the real code panicked: {msg}")).tag("panic"),
+    }
+}
+
+fn run_case_inner(input: &str) -> Option<Outcome> {
+    let toks: Vec<&str> = input.split(' ').collect();
+    if toks.len() != 2 {
+        return None;
+    }
+    let tree = parse_tree(toks[1])?;
+    let mut given = BTreeMap::new();
+    if toks[0] != "-" {
+        for e in toks[0].split(',') {
+            let (a, b) = e.split_once('>')?;
+            given.insert(String::from_utf8(unhex(a)?).ok()?, String::from_utf8(unhex(b)?).ok()?);
+        }
+    }
+    if given != nfc_table(&tree) {
+        return None;
+    }
+    let mut viol: Vec<(String, String)> = vec![];
+    let mut tags: Vec<String> = vec![];
+    // hypotheses about NFC used by the theorems, on the fragments of this case
+    {
+        let mut ss = vec![];
+        strings_of(&tree, &mut ss);
+        for s in ss {
+            for f in fragments(s) {
+                let n: String = f.nfc().collect();
+                if n.bytes().any(needs_esc) {
+                    viol.push(("nfc-hypothesis-failed".into(), format!("NFC of fragment {} contains a byte that needs escaping", hexs(f))));
+                }
+                if n.nfc().collect::<String>() != n {
+                    viol.push(("nfc-hypothesis-failed".into(), format!("NFC is not idempotent on fragment {}", hexs(f))));
+                }
+            }
+        }
+    }
+    let float = has_float(&tree);
+    let direct = encode(&tree);
+    let mut text = String::new();
+    json_text(&tree, &mut text);
+    let value: serde_json::Value = serde_json::from_str(&text).ok()?;
+    let via_value = encode(&value);
+    fn value_has_float(v: &serde_json::Value) -> bool {
+        match v {
+            serde_json::Value::Number(n) => n.is_f64(),
+            serde_json::Value::Array(xs) => xs.iter().any(value_has_float),
+            serde_json::Value::Object(m) => m.values().any(value_has_float),
+            _ => false,
+        }
+    }
+    // (a float member of the tree can be shadowed by a later duplicate key when the `Value` is built)
+    for (what, r, float) in [("direct", &direct, float), ("value", &via_value, value_has_float(&value))] {
+        match r {
+            None => {
+                if !float {
+                    viol.push(("nonfloat-rejected".into(), format!("{what}: a value without floating point numbers was refused")));
+                }
+            }
+            Some(out) => {
+                if float {
+                    viol.push(("float-accepted".into(), format!("{what}: a value containing a floating point number was encoded")));
+                }
+                check_output(what, out, &mut viol);
+            }
+        }
+    }
+    // single representation: member order is irrelevant when no two keys of an object collide
+    if !float && collision_free(&tree) {
+        tags.push("collision-free".into());
+        if encode(&reversed(&tree)) != direct {
+            viol.push(("order-dependent".into(), "reversing the member order of the objects changes the encoding although no two keys collide".into()));
+        }
+    } else if !float {
+        tags.push("colliding-keys".into());
+    }
+    tags.push(if float { "float".into() } else { "no-float".into() });
+    if !given.is_empty() {
+        tags.push("non-nfc-input".into());
+    }
+    {
+        let mut ss = vec![];
+        strings_of(&tree, &mut ss);
+        if ss.iter().any(|s| s.bytes().any(needs_esc)) {
+            tags.push("escapes".into());
+        }
+        if matches!(tree, J::Obj(_) | J::Arr(_)) {
+            tags.push("composite".into());
+        }
+    }
+    let show = |r: &Option<Vec<u8>>| r.as_ref().map(|b| hex(b)).unwrap_or_else(|| "err".into());
+    let mut o = Outcome::new(format!("direct={} value={}", show(&direct), show(&via_value)));
+    o.nontrivial = !float && matches!(tree, J::Obj(_) | J::Arr(_));
+    o.violations = viol;
+    tags.sort();
+    tags.dedup();
+    o.tags = tags;
+    Some(o)
+}
+
+// ---------------------------------------------------------------------------------------------
+
+const STRS: &[&str] = &[
+    "", "a", "b", "A", "name", "a b", "a!", "a\"", "a#", "ab", "a\u{0}", "\u{1}", "\u{1f}", "\u{7f}", "\u{80}", "\u{9f}",
+    "e\u{301}", "\u{e9}", "A\u{30a}", "\u{212b}", "\u{c5}", "\u{1100}\u{1161}", "\u{ac00}", "\u{fb01}", "\u{2126}", "\u{3a9}",
+    "\n", "\t", "\r", "\u{8}", "\u{c}", "\"", "\\", "\t\"q\"\\", "\u{1f600}", "e\n\u{301}", "\u{301}", "e\"\u{301}",
+    "q\u{307}\u{323}", "q\u{323}\u{307}", "\u{1e0b}\u{323}", "x\u{1f}e\u{301}y\"e\u{301}", "\u{1fef}", "\u{37e}", "\u{2000}",
+    "\u{f900}", "\u{2f800}", "\u{344}", "\u{958}", "\u{10ffff}", "\u{fffd}", " ", "  x ", "/", "<>&'",
+];
+
+fn gen_string(rng: &mut Rng) -> String {
+    match rng.below(10) {
+        0..=4 => rng.pick(STRS).to_string(),
+        5..=7 => format!("{}{}", rng.pick(STRS), rng.pick(STRS)),
+        8 => (0..rng.below(6)).map(|_| (b'a' + rng.below(26) as u8) as char).collect(),
+        _ => {
+            // random scalar values, biased to the ranges with decompositions
+            (0..rng.range(1, 4))
+                .filter_map(|_| {
+                    let c = match rng.below(6) {
+                        0 => rng.below(0x80),
+                        1 => rng.range(0x80, 0x24f),
+                        2 => rng.range(0x300, 0x36f),
+                        3 => rng.range(0x1e00, 0x1fff),
+                        4 => rng.range(0xac00, 0xd7a3),
+                        _ => rng.below(0x11000),
+                    };
+                    char::from_u32(c as u32)
+                })
+                .collect()
+        }
+    }
+}
+
+fn gen_int(rng: &mut Rng) -> i128 {
+    match rng.below(12) {
+        0 => 0,
+        1 => 1,
+        2 => -1,
+        3 => i64::MIN as i128,
+        4 => i64::MAX as i128,
+        5 => u64::MAX as i128,
+        6 => i64::MAX as i128 + 1,
+        7 => u32::MAX as i128,
+        8 => -(rng.below(100000) as i128),
+        9 => rng.next() as i128,
+        10 => -((rng.next() >> 1) as i128),
+        _ => rng.below(1000) as i128,
+    }
+}
+
+fn gen_value(rng: &mut Rng, depth: u32, float_den: u64) -> J {
+    let top = if depth >= 4 { 8 } else { 13 };
+    match rng.below(top) {
+        0 => J::Null,
+        1 => J::Bool(rng.bool()),
+        2..=4 => {
+            if rng.chance(1, float_den) {
+                J::Float(rng.below(FLOATS.len() as u64) as u32)
+            } else {
+                J::Int(gen_int(rng))
+            }
+        }
+        5..=7 => J::Str(gen_string(rng)),
+        8 | 9 => J::Arr((0..rng.below(4)).map(|_| gen_value(rng, depth + 1, float_den)).collect()),
+        _ => {
+            let n = rng.below(6);
+            let mut kvs: Vec<(String, J)> = (0..n).map(|_| (gen_string(rng), gen_value(rng, depth + 1, float_den))).collect();
+            if !kvs.is_empty() && rng.chance(1, 10) {
+                let k = kvs[rng.below(kvs.len() as u64) as usize].0.clone();
+                kvs.push((k, gen_value(rng, depth + 1, float_den)));
+            }
+            J::Obj(kvs)
+        }
+    }
+}
+
+fn format_case(tree: &J) -> String {
+    let nt = nfc_table(tree);
+    let nt = if nt.is_empty() { "-".to_string() } else { nt.iter().map(|(a, b)| format!("{}>{}", hexs(a), hexs(b))).collect::<Vec<_>>().join(",") };
+    let mut w = String::new();
+    wire(tree, &mut w);
+    format!("{nt} {w}")
+}
+
 fn main() {
-    eprintln!("C18: harness not implemented");
-    std::process::exit(3);
+    let mut ctx = Ctx::from_args("C18");
+    if !ctx.run_fixed(run_case) {
+        let mut rng = ctx.rng();
+        // every string of the pool as a value and as a key
+        for s in STRS {
+            for t in [J::Str(s.to_string()), J::Obj(vec![(s.to_string(), J::Null), ("m".into(), J::Str(s.to_string()))])] {
+                let input = format_case(&t);
+                let o = run_case(&input);
+                ctx.record(&input, o);
+            }
+        }
+        // every ordered pair of pool strings as the two keys of an object (sorting, collisions)
+        for a in STRS {
+            for b in STRS {
+                if ctx.quick() && rng.chance(1, 2) {
+                    continue;
+                }
+                let t = J::Obj(vec![(a.to_string(), J::Int(1)), (b.to_string(), J::Int(2))]);
+                let input = format_case(&t);
+                let o = run_case(&input);
+                ctx.record(&input, o);
+            }
+        }
+        let n = ctx.size(5_000, 300_000);
+        for _ in 0..n {
+            let top = if rng.chance(4, 5) {
+                // composite at top level
+                loop {
+                    let v = gen_value(&mut rng, 0, 40);
+                    if matches!(v, J::Obj(_) | J::Arr(_)) {
+                        break v;
+                    }
+                }
+            } else {
+                gen_value(&mut rng, 0, 6)
+            };
+            let input = format_case(&top);
+            let o = run_case(&input);
+            ctx.record(&input, o);
+        }
+    }
+    ctx.finish(
+        "every pool string (control characters, quote, backslash, DEL, C1, non-NFC sequences, singleton decompositions, \
+         astral) as value and key; ordered pairs of pool strings as the two keys of an object; random JSON trees (depth <= 5, \
+         objects with 0-6 members in arbitrary order incl. duplicate and NFC-colliding keys, integers at the 64-bit bounds, \
+         floats in about one tree in ten), each encoded directly (members handed to the serialiser as given) and through \
+         serde_json::Value; non-trivial = an array or object without floats; distinct by input text",
+        false,
+    );
 }
